@@ -9,6 +9,7 @@ package pemreader
 //@   ensures[C06] line_fits: err == nil ==> 0 <= r0 && r0 <= pemMaxLineLength && r0 <= len(byteData)
 
 //@ func PemReader.readNextBase64Line
+//@   note bounded_call Reader.ReadString: the body of a well-formed PEM CRL has lines of 64 columns (the property is stated for well-formed CRLs; a PEM file without line breaks is buffered whole, DESIGN F-07)
 //@   props C07 C06
 //@   note termination of the armour-skipping recursion depends on ReadString consuming input (not modelled: see DESIGN C07)
 //@   requires p != nil && p.Reader != nil
